@@ -23,7 +23,8 @@
        or it reads again and the ring is drained). A command written while the flag is set is refused
        (DriverProxy returns IllegalState::CouldNotWriteCommandToDriver); the correlation id has been taken by then.
        Strings fit the 512-byte scratch buffer (C13);
-     - callbacks do not call back into the conductor (is_in_callback is false at every entry point);
+     - callbacks do not call back into the conductor (is_in_callback is false at every entry point); what happens when
+       they do is Model/ConductorReent.v;
      - the conductor mutex: an entry point runs with the mutex held; a destructor the conductor runs itself is
        `dtor_locked`; if that destructor would lock the mutex again the operation's outcome is Hang.
    Definitions only. *)
@@ -77,7 +78,8 @@ Definition upd (id : Z) (f : entry -> entry) (m : amap) : amap :=
   map (fun p => if fst p =? id then (fst p, f (snd p)) else p) m.
 Definition keys (m : amap) : list Z := map fst m.
 
-Inductive cerr := EServiceTimeout | EWasInactive | EInactive | EHeartbeatLost | EClientTimeout.
+Inductive cerr := EServiceTimeout | EWasInactive | EInactive | EHeartbeatLost | EClientTimeout
+  | EChannelEndpoint (x : Z).   (* ChannelEndpointException(offending_command_correlation_id, message): the id as the driver sent it *)
 
 Inductive cb :=
 | CbErr (e : cerr)
@@ -98,12 +100,19 @@ Inductive event :=
 | EvXPubReady (id stream session limit chstat : Z)      (* correlation id = registration id, as the driver sends it *)
 | EvSubReady (corr chstat : Z)
 | EvOpSuccess (corr : Z)
-| EvError (corr code : Z)                               (* code <> 4 (channel endpoint errors are not modelled) *)
+| EvError (corr code : Z)                               (* on_error_response: code <> 4 (the adapter sends code 4 to EvChanError, see ev_error) *)
 | EvAvailImage (corr session subpos subreg : Z)
 | EvUnavailImage (corr subreg : Z)
 | EvCounterReady (corr cid : Z)
 | EvUnavailCounter (corr cid : Z)
-| EvClientTimeout (cid : Z).
+| EvClientTimeout (cid : Z)
+| EvChanError (x : Z).                                  (* on_channel_endpoint_error_response: ErrorResponse with error code 4
+                                                           (CHANNEL_ENDPOINT_ERROR); x is the "offending correlation id" field, which
+                                                           for this code carries a channel status indicator id *)
+
+(* DriverListenerAdapter::receive_messages, arm ResponseOnError: the error code decides which listener method is called *)
+Definition ev_error (corr code : Z) : event :=
+  if code =? GenConsts.ERROR_CODE_CHANNEL_ENDPOINT_ERROR then EvChanError corr else EvError corr code.
 
 (* what the broadcast receiver yields in one duty cycle *)
 Inductive bcast := BNone | BLapped | BOversize | BEvent (e : event).
@@ -426,6 +435,61 @@ Definition on_error (corr code : Z) (s : st) : st :=
   | None => s
   end end end end end.
 
+(* ---- on_channel_endpoint_error_response ----
+   Every subscription / publication / exclusive publication whose handle is alive (the weak reference upgrades: a
+   subscription from its ready answer on - cached or held -, a publication from its first lookup on, while the user holds
+   it) and whose channel_status_id() equals the id `as i32` is marked: the error handler is called once per resource, the
+   handle is closed (a subscription: its images are closed and reported, then it is closed), and the registration is
+   forgotten (the user keeps the closed handle). Registrations without a live handle (Awaiting, Errored, a publication
+   that was never looked up, a dropped handle) and counters / destinations are not touched.
+   Subscriptions come first, then publications, then exclusive publications; inside one map the order is the HashMap's
+   (here: the list's; the comparison with the implementation puts the groups in a canonical order). *)
+Definition chan_id (k : kind) (o : obj) : Z := match k with KSub => o_d1 o | _ => o_d2 o end.
+(* the live handle of the entry if it sits on that channel status indicator *)
+Definition chan_hit (k : kind) (x : Z) (e : entry) : option obj :=
+  match e_obj e with
+  | Some o => if chan_id k o =? wrap32 x then Some o else None
+  | None => None
+  end.
+(* is the registration forgotten? (a subscription only when close_and_remove_images really closed it) *)
+Definition chan_removed (k : kind) (x : Z) (p : Z * entry) : bool :=
+  match chan_hit k x (snd p) with
+  | Some o => match k with KSub => negb (o_closed o) | _ => true end
+  | None => false
+  end.
+Definition chan_keep (k : kind) (x : Z) (m : amap) : amap := filter (fun p => negb (chan_removed k x p)) m.
+Definition chan_cbs (k : kind) (x : Z) (m : amap) : list cb :=
+  flat_map (fun p => match chan_hit k x (snd p) with
+                     | Some o => CbErr (EChannelEndpoint x) :: match k with KSub => snd (close_sub_obj (fst p) o) | _ => [] end
+                     | None => []
+                     end) m.
+(* the handle after the conductor has closed it *)
+Definition chan_closed_obj (k : kind) (r : Z) (o : obj) : obj :=
+  match k with KSub => fst (close_sub_obj r o) | _ => obj_close o end.
+(* closed handles the user still holds *)
+Definition chan_orphans (k : kind) (x : Z) (m : amap) : list (kind * Z * obj) :=
+  flat_map (fun p => match chan_hit k x (snd p) with
+                     | Some o => if chan_removed k x p && (o_user o || negb (kind_eqb k KSub))
+                                 then [(k, fst p, chan_closed_obj k (fst p) o)] else []
+                     | None => []
+                     end) m.
+(* cached (never looked up) subscriptions whose registration is forgotten: their last strong reference goes away with the
+   entry, the destructor runs while the conductor's mutex is held *)
+Definition chan_dropped (x : Z) (m : amap) : list obj :=
+  flat_map (fun p => match chan_hit KSub x (snd p) with
+                     | Some o => if chan_removed KSub x p && negb (o_user o) then [chan_closed_obj KSub (fst p) o] else []
+                     | None => []
+                     end) m.
+
+Definition on_chan_error (x : Z) (s : st) : st * list cb * bool :=
+  let orph := orphans s ++ chan_orphans KSub x (subs s) ++ chan_orphans KPub x (pubs s) ++ chan_orphans KXPub x (xpubs s) in
+  let s1 := setm KSub (chan_keep KSub x (subs s)) s in
+  let s2 := setm KPub (chan_keep KPub x (pubs s)) s1 in
+  let s3 := setm KXPub (chan_keep KXPub x (xpubs s)) s2 in
+  (set_orphans orph s3,
+   chan_cbs KSub x (subs s) ++ chan_cbs KPub x (pubs s) ++ chan_cbs KXPub x (xpubs s),
+   existsb dtor_locked (chan_dropped x (subs s))).
+
 (* returns state, callbacks, hang *)
 Definition on_event (ev : event) (s : st) : st * list cb * bool :=
   match ev with
@@ -496,6 +560,7 @@ Definition on_event (ev : event) (s : st) : st * list cb * bool :=
       if (cid =? client_id s) && negb (closed s)
       then let '(s1, cbs, hang) := close_all s in (s1, cbs ++ [CbErr EClientTimeout], hang)
       else (s, [], false)
+  | EvChanError x => on_chan_error x s
   end.
 
 (* ---- on_heartbeat_check_timeouts ---- *)
